@@ -624,6 +624,7 @@ func readSession(eng flows.Engine, sessionAssets flows.SessionAssets, data json.
 		if s.trigger, err = triggers.ReadTrigger(s.Assets(), e.Trigger, missing); err != nil {
 			return nil, fmt.Errorf("unable to read trigger: %w", err)
 		}
+		s.batchStart = s.trigger.Batch()
 	}
 
 	// read our contact
